@@ -1010,6 +1010,12 @@ func h5Concurrent[T num, A arr[T, A]](k kit[T, A], rc *RunCtx, o *Outcome, ctl *
 			case 5:
 				plans[c] = append(plans[c], h5In{Op: "shape", Path: d.path})
 			}
+			if w.Choose(5) == 4 {
+				// catalogue calls (Exists, GetDatasets, GetGroups): several locked library calls each,
+				// so they are not part of the linearizability history, but they run under the lock
+				// monitor among the other clients' calls
+				plans[c] = append(plans[c], h5In{Op: "catalogue", Path: d.path})
+			}
 		}
 	}
 	o.Sample = map[string]interface{}{"mode": "concurrent", "element_type": k.name, "clients": nClients, "operations_per_client": opsPer, "datasets": len(dss), "latency": ctl.Latency}
@@ -1025,6 +1031,16 @@ func h5Concurrent[T num, A arr[T, A]](k kit[T, A], rc *RunCtx, o *Outcome, ctl *
 			simrt.Go("h5:client", func() {
 				for _, in := range plans[c] {
 					simrt.Yield("h5:client-op")
+					if in.Op == "catalogue" {
+						ref := refOf(k, in.Path, nil)
+						if !ref.Exists() {
+							simrt.Record(h5Event{Client: -1, In: in})
+						}
+						root := refOf(k, in.Path[:strings.Index(in.Path, ":")]+":/", nil)
+						root.GetDatasets()
+						root.GetGroups()
+						continue
+					}
 					ev := h5Event{Client: c + 1, In: in, Call: simrt.NextSeq()}
 					ref := refOf(k, in.Path, in.Sel)
 					switch in.Op {
@@ -1071,7 +1087,12 @@ func h5Concurrent[T num, A arr[T, A]](k kit[T, A], rc *RunCtx, o *Outcome, ctl *
 		return
 	}
 	for _, r := range s.Records {
-		events = append(events, r.(h5Event))
+		ev := r.(h5Event)
+		if ev.Client < 0 {
+			o.fail("exists-semantics", "exists", "Exists(%s) returned false for a dataset that exists, while other clients were using the library", ev.In.Path)
+			return
+		}
+		events = append(events, ev)
 	}
 	var ops []porcupine.Operation
 	for _, e := range events {
